@@ -136,7 +136,16 @@ func c36DataBatch(schema *arrow.Schema, data []byte) arrow.RecordBatch {
 
 type c36XchState struct{ mult int64 }
 
-func (s *c36XchState) Exchange(_ context.Context, in arrow.RecordBatch, out *vgirpc.OutputCollector, _ *vgirpc.CallContext) error {
+func (s *c36XchState) Exchange(_ context.Context, in arrow.RecordBatch, out *vgirpc.OutputCollector, cc *vgirpc.CallContext) error {
+	// the client tags every turn input with custom metadata (c36tag=t<k>, c36seq=q<k>); a handler must see
+	// the same values whether the input travelled inline or as a shm pointer
+	if cc != nil {
+		for _, kv := range [][2]string{{"c36tag", "t"}, {"c36seq", "q"}} {
+			if i := cc.InputMetadata.FindKey(kv[0]); i >= 0 && !strings.HasPrefix(cc.InputMetadata.Values()[i], kv[1]) {
+				return &vgirpc.RpcError{Type: "InputMetadataMangled", Message: kv[0] + "=" + cc.InputMetadata.Values()[i]}
+			}
+		}
+	}
 	if in.NumRows() != 1 || in.NumCols() != 1 {
 		// what a pointer batch that slipped through looks like to a handler
 		return &vgirpc.RpcError{Type: "HandlerSawNonData", Message: fmt.Sprintf("input has %d rows", in.NumRows())}
@@ -658,7 +667,7 @@ func (cl *c36Client) stream(method, adv string, params arrow.RecordBatch, via st
 	sent := 0
 	var prepared *c36Wire
 	if len(turns) > 0 {
-		fw := cl.send(turns[0].input, turns[0].via, engaged, nil, nil)
+		fw := cl.send(turns[0].input, turns[0].via, engaged, []string{"c36tag", "c36seq"}, []string{"t0", "q0"})
 		prepared = &fw
 	}
 	cl.writeStream(w)
@@ -671,7 +680,7 @@ func (cl *c36Client) stream(method, adv string, params arrow.RecordBatch, via st
 		if prepared != nil {
 			cur, prepared = *prepared, nil
 		} else {
-			cur = cl.send(turns[sent].input, turns[sent].via, engaged, nil, nil)
+			cur = cl.send(turns[sent].input, turns[sent].via, engaged, []string{"c36tag", "c36seq"}, []string{fmt.Sprintf("t%d", sent), fmt.Sprintf("q%d", sent)})
 		}
 		cl.sentPtr = append(cl.sentPtr, cur.isPtr)
 		if err := iw.Write(cur.batch); err != nil && cl.broken == "" {
